@@ -1,7 +1,7 @@
 ----------------------------- MODULE MC_Version -----------------------------
 (* Evaluates Version.tla's tables over their grids and writes the vectors    *)
 (* (input, acceptable outputs) for harness/cmd/sizes: $VEC_VERSION,          *)
-(* $VEC_CLIENT, $VEC_SIZE.                                                    *)
+(* $VEC_CLIENT, $VEC_SIZE, $VEC_DIRFIT.                                                   *)
 EXTENDS Version, Json, IOUtils, CSV
 
 W(f, v) == CSVWrite("%1$s", <<ToJson(v)>>, f)
@@ -23,6 +23,10 @@ ASSUME "VEC_CLIENT" \in DOMAIN IOEnv =>
 ASSUME "VEC_SIZE" \in DOMAIN IOEnv =>
   \A c \in SizeCasesOK :
      W(IOEnv.VEC_SIZE, [ms |-> c[1], count |-> c[2], kind |-> c[3], reneg |-> c[4], maxdata |-> MaxData(c[1])])
+
+ASSUME "VEC_DIRFIT" \in DOMAIN IOEnv =>
+  \A c \in DirFitCases :
+     W(IOEnv.VEC_DIRFIT, [ms |-> c[1], count |-> c[2], limit |-> DirLimit(c[1], c[2]), namelens |-> DirNameLens])
 
 ASSUME PrintT(<<"cases", Cardinality(VersionCases), Cardinality(ClientCasesOK), Cardinality(SizeCasesOK)>>)
 =============================================================================
